@@ -416,9 +416,11 @@ def gen_slru(r, cid, nops, opts):
     lines = ["case %d slru pcap=%d qcap=%d %s" % (cid, pcap, qcap, var)]
     has_alt = False
     hot = r.rng(1, U)
+    drains = 0
     for _ in range(nops):
         name = r.weighted(table)
-        if r.chance(1, 50):
+        if drains < 2 and r.chance(1, 50):
+            drains += 1
             # drain: every key removed one by one, then the history goes on from an emptied cache
             lines.extend("remove %d" % k for k in range(1, U + 1))
             continue
@@ -485,9 +487,11 @@ def gen_twoq(r, cid, nops, opts):
     hot = r.rng(1, U)
     aged = Aged(size, int(size * gr))
     room = False
+    drains = 0
     for _ in range(nops):
         name = r.weighted(table)
-        if r.chance(1, 40) and len(aged.hist) > size:
+        if drains < 2 and r.chance(1, 40) and len(aged.hist) > size:
+            drains += 1
             for l in drain_burst(r, U, aged, vals):
                 aged.note(l)
                 lines.append(l)
@@ -538,9 +542,11 @@ def gen_arc(r, cid, nops, opts):
     hot = r.rng(1, U)
     aged = Aged(size, size)
     room = False
+    drains = 0
     for _ in range(nops):
         name = r.weighted(table)
-        if r.chance(1, 40) and len(aged.hist) > size:
+        if drains < 2 and r.chance(1, 40) and len(aged.hist) > size:
+            drains += 1
             for l in drain_burst(r, U, aged, vals):
                 aged.note(l)
                 lines.append(l)
@@ -602,9 +608,11 @@ def gen_wtinylfu(r, cid, nops, opts):
             h = (k * 0x9E3779B97F4A7C15) & MASK
         lines.append("kh %d %x" % (k, h))
     hot = r.rng(1, U)
+    drains = 0
     for _ in range(nops):
         name = r.weighted(table)
-        if r.chance(1, 50):
+        if drains < 2 and r.chance(1, 50):
+            drains += 1
             # drain: every key removed one by one, then the history goes on from an emptied cache
             lines.extend("remove %d" % k for k in range(1, U + 1))
             continue
